@@ -16,7 +16,9 @@ def concrete(tier, progs=PROGS, cfgs=None):
         for np_ in (False, True):
             for pn in progs:
                 l = 12 if pn == 'gcd_ops' else 8
-                T.append(('sx.mpinst', 'concrete_program', (m, t, np_, pn, l, 30, seeds)))
+                sd = seeds
+                if pn == 'gcd_ops' and m >= 6: sd = seeds[:2]          # ~100 s per seed with 7 parties (450 000 messages): two seeds fit the task limit
+                T.append(('sx.mpinst', 'concrete_program', (m, t, np_, pn, l, 30, sd)))
     return T
 
 
